@@ -251,7 +251,7 @@ def run(facts, rep, tier):
         # closure returns the comparison directly
         e = expr_place(rdu, {"local": 0, "proj": []})
         keep_terms = [(e, True)]
-        decided = _keep_is(e, True, rc, sb, sdu, rr)
+        decided = _keep_is(e, True, rc, sb, sdu, rr, facts)
     else:
         decided = True
         keep_terms = []
@@ -275,7 +275,7 @@ def run(facts, rep, tier):
                 continue
             # (cond == truth) => returns val ; keep iff val==1
             keep_terms.append((show(e), truth, val))
-            if not _keep_is(e, truth if val == 1 else (not truth), rc, sb, sdu, rr):
+            if not _keep_is(e, truth if val == 1 else (not truth), rc, sb, sdu, rr, facts):
                 decided = False
     rep.instances("R12.2", 1, floor=1, what="retain closure")
     rep.oblige(decided, ("retain-pred",))
@@ -356,7 +356,16 @@ def _ctor_stamps(facts, cb, du, st, ret_src):
     return False
 
 
-def _keep_is(e, truth, rc, sb, sdu, rr):
+def _keep_is(e, truth, rc, sb, sdu, rr, facts=None):
+    if facts is not None:
+        from ..mirq import inline_expr
+        e = inline_expr(facts, e)         # see through `is_expired(plane, now, limit)` style helpers
+    while e[0] == "un" and e[1] == "Not":
+        e, truth = e[2], (not truth)
+    return _keep_is0(e, truth, rc, sb, sdu, rr)
+
+
+def _keep_is0(e, truth, rc, sb, sdu, rr):
     """is `(e == truth)` equivalent to  num_seconds(now - row.timestamp) < delete_after ?
     accepted spellings: signed_duration_since / the `-` operator for the difference; the comparison on whole seconds
     (`num_seconds(d) < limit`, mirrored, negated) or on durations (`d < TimeDelta::seconds(limit)`, which agrees with the
